@@ -1,6 +1,7 @@
 /- Property C06: the property theorems (and nothing else). -/
 import Frugal.Proofs.AllocLemmas
-import Frugal.Props.Instances
+import Frugal.Props.Inst.F_facts_typedAllocation
+import Frugal.Props.Inst.F_valid_span
 namespace Frugal.C06
 open Frugal
 
